@@ -218,3 +218,29 @@ def thorough_lattice():
         add([v] + SCALAR)
     add(ALL)
     return out
+
+
+def thorough_lattice_small():
+    """The thorough tier's configuration set: every documented macro on its own (with what it implies), the scalar
+    set, and the sub-extension combinations that select their own rungs most often.  (The full pair/triple lattice of
+    thorough_lattice() is kept for C19's syntax matrix, where a configuration costs one -fsyntax-only compile.)"""
+    out = []
+    seen = set()
+
+    def add(c):
+        c = frozenset(c)
+        k = closure(c)
+        if k not in seen:
+            seen.add(k)
+            out.append(minimal(c) if c != ALL else ALL)
+    add([])
+    for m in FEATURES:
+        add([m])
+    add(SCALAR)
+    add(['AVX2', 'FMA'])
+    for t in (['AVX512BW', 'AVX512VL'], ['AVX512DQ', 'AVX512VL'], ['AVX512VL', 'AVX512CD'], ['AVX512BW', 'AVX512DQ'],
+              ['AVX512VL', 'AVX512BW', 'AVX512DQ', 'AVX512CD'], ['AVX512VL', 'AVX512VBMI2'], ['AVX512BW', 'AVX512BITALG'],
+              ['AVX512VL', 'AVX512BW', 'AVX512VBMI']):
+        add(t)
+    add(ALL)
+    return out
